@@ -605,6 +605,7 @@ func c07FilterVerdict(c *kit.Ctx, in *kit.Func, call *ast.CallExpr, need map[str
 func c07R7(c *kit.Ctx, m *cmModel, r *kit.Rule) {
 	seenF := map[*kit.Func]bool{}
 	for _, sto := range m.stores {
+		sto = cmLiftStore(c, sto) // the caller's loop when the insertion lives in a helper
 		f := sto.f
 		if seenF[f] || sto.loop == nil {
 			continue
